@@ -97,6 +97,11 @@ pub struct CmdRule {
     pub latency_ms: u64,
     #[serde(default)]
     pub spawn_fail: bool,
+    /// the rule only applies in [from_ms, until_ms) of virtual time (0 = unbounded)
+    #[serde(default)]
+    pub from_ms: u64,
+    #[serde(default)]
+    pub until_ms: u64,
 }
 
 #[derive(Deserialize, Debug, Clone)]
@@ -277,8 +282,9 @@ pub async fn boot() -> Option<i32> {
         let rules = plan.cmds.clone();
         let def = plan.cmd_default_exit;
         sim::set_cmd_handler(Box::new(move |argv: &[String]| {
+            let now_ms = sim::clock::elapsed_us() / 1000;
             for r in rules.iter() {
-                if r.argv == argv {
+                if r.argv == argv && now_ms >= r.from_ms && (r.until_ms == 0 || now_ms < r.until_ms) {
                     return sim::CmdOutcome { spawn_fail: r.spawn_fail, exit_code: r.exit, latency_ms: r.latency_ms };
                 }
             }
